@@ -273,6 +273,32 @@ with `&self.limbs`, the limb list itself).  Subset extensions used there:
       outcomes of the test `i == 0`: `| 0 => <body with i = 0>; E` and `| n + 1 => <body with i = n + 1>; <fn>_loop<j> .. n`;
       the function's value is the call with the counter's initial value (`LIMBS - 1`, truncated: for `LIMBS = 0` Rust's
       `usize` subtraction overflows — a panic — and the translation reads the default limb 0 at index 0).
+Eleventh unit group (round 4, G17; written to lean/CB/Gen/DivLimbLoops.lean, imports CB.Gen.DivLimb and CB.Gen.Shifts): division of
+a `Uint<L>` by a LIMB (C02) — the free functions `div_rem_limb_with_reciprocal`, `rem_limb_with_reciprocal`,
+`rem_limb_with_reciprocal_wide` of src/uint/div_limb.rs (namespace CB.Gen.DivLimbLoops: `u.shl_limb(reciprocal.shift)` of the
+Shifts unit, then the count-down loop(s) `while j > 0 { j -= 1; .. }` of `div2by1` of the DivLimb unit — fifth form of the
+seventh group, one auxiliary definition per loop, `_loop1` / `_loop2` for the hi / lo halves of the wide form), the wrappers
+`impl Uint { div_rem_limb_with_reciprocal, div_rem_limb, rem_limb_with_reciprocal, rem_limb }` of src/uint/div.rs (namespace
+CB.Gen.DivLimbLoops.Uint) and `mul_rem` (namespace CB.Gen.DivLimbLoops.MulRem, a unit that is not generic).  Subset extensions:
+  unit option `generic_alias='L'`: the file names its const generic `L` (`fn f<const L: usize>(u: &Uint<L>, ..)`); the word `L` of
+  the file is read as `LIMBS` before parsing, so that `Uint<L>`, `[Limb::ZERO; L]`, `let mut j = L;`, `Uint::<L>::new(q)` are the
+  forms of a `free_generic` unit;
+  `u.as_limbs()` (the `[Limb; LIMBS]` of a `Uint`: the limb list itself); a pair of references `(&Uint<L>, &Uint<L>)` as a
+  parameter (the pair of the limb lists, `lo_hi.0` / `lo_hi.1`);
+  `Reciprocal::new(d)` (a struct's associated function) called from another unit: resolved in the unit among `use` whose
+  namespace ends in `.Reciprocal`;
+  a call from a NON-generic function into a generic unit whose `Uint` arguments are `Uint::from_words([w0, .., wk-1])`: the
+  callee at the limb count `k` of the literal, the argument the list `[w0, .., wk-1]` of those words
+  (`rem_limb_with_reciprocal 2 [lo, hi] rec_`);
+  a Rust local whose name is a Lean keyword (`let rec = ..`) gets a trailing underscore (`rec_`).
+Also in that file (namespace CB.Gen.DivLimbLoops.Vartime): the private helpers `impl Uint { shl_limb_vartime, shr_limb_vartime }` of
+src/uint/div.rs (the sub-limb shifts of `div_rem_vartime` over the low `limbs_num` limbs).  Subset extensions:
+  unit option `usize_param_nat`: a `usize` PARAMETER (`limbs_num: usize`) is a `Nat` (as limb counts and indices are), `limbs_num - 1`
+  the truncated `Nat` subtraction (Rust panics on underflow: `1 <= limbs_num` is a precondition of the bridge theorems);
+  a seventh `while` form:
+    - `let mut i = <Nat expression>; while i > 0 { ..; i -= 1; }` with the decrement as the LAST statement of the body becomes
+      `<fn>_loop<j> captured.. : Nat → state.. → state` by structural recursion on the counter: round `n + 1` runs the body with
+      `i = n + 1` and recurses with `n` (the fifth form of the seventh group, decrement FIRST, runs it with `i = n`).
 """
 import os, re, sys, json
 
@@ -3236,6 +3262,142 @@ def _gen_body(self, body, env, rty, outs=None):
 Gen.ex, Gen.body = _gen_ex2, _gen_body
 
 
+# ---- round 4, G17 (division by a limb): `u.as_limbs()` — the `[Limb; LIMBS]` of a `Uint`: the limb list itself
+
+_ex_r4 = Gen.ex
+
+
+def _gen_ex4(self, e, env, want=None):
+    if e[0] == 'method' and e[1] == 'as_limbs' and not e[3]:
+        r, tr = self.ex(e[2], env)
+        if tr == 'uint':
+            return r, 'uint'
+    if (e[0] == 'call' and len(e[1]) == 2 and e[1][0] in STRUCTS and e[1][0] != self.self_ty):
+        # `Reciprocal::new(d)` from another unit: the `impl Reciprocal` unit among the units listed under `use`
+        for ns, sg in self.ext.get('use', []):
+            if ns.endswith('.' + e[1][0]) and e[1][1] in sg and ns not in GENERIC_NS:
+                ptys, rty = sg[e[1][1]]
+                if len(ptys) != len(e[2]):
+                    raise Unsupported('arity ' + '::'.join(e[1]))
+                parts = []
+                for a, pt in zip(e[2], ptys):
+                    t, ty = self.ex(a, env, pt)
+                    if ty != pt:
+                        raise Unsupported(f'argument type {ty} for {pt} in ' + '::'.join(e[1]))
+                    parts.append(atom(t))
+                return f'({ns}.{e[1][1]} ' + ' '.join(parts) + ')', rty
+    if e[0] == 'call' and len(e[1]) == 1 and not self.generic:
+        # a call from a NON-generic function into a unit generic over the limb count, the `Uint` arguments being
+        # `Uint::from_words([w0, .., wk-1])`: the callee at the limb count k of the literal, the value the list of those words
+        ns, sig = self.lookup(e[1][0], 'bare')
+        if sig is not None and ns in GENERIC_NS and ns != self.ns:
+            ptys, rty = sig
+            if len(ptys) != len(e[2]):
+                raise Unsupported('arity ' + e[1][0])
+            parts, count = [], None
+            for a, pt in zip(e[2], ptys):
+                if pt == 'uint':
+                    if not (a[0] == 'call' and a[1] == ['Uint', 'from_words'] and len(a[2]) == 1 and a[2][0][0] == 'tuple'):
+                        raise Unsupported('call into a generic unit from outside')
+                    ws = []
+                    for w in a[2][0][1]:
+                        t, ty = self.ex(w, env, 64)
+                        if ty != 64:
+                            raise Unsupported('Uint::from_words of a non-word')
+                        ws.append(t)
+                    if count not in (None, len(ws)):
+                        raise Unsupported('Uint::from_words literals of different lengths')
+                    count = len(ws)
+                    parts.append('[' + ', '.join(ws) + ']')
+                else:
+                    t, ty = self.ex(a, env, pt)
+                    if ty != pt:
+                        raise Unsupported(f'argument type {ty} for {pt} in {e[1][0]}')
+                    parts.append(atom(t))
+            if count is None:
+                raise Unsupported('call into a generic unit from outside')
+            return f'({ns}.{e[1][0]} {count} ' + ' '.join(parts) + ')', rty
+    return _ex_r4(self, e, env, want)
+
+
+Gen.ex = _gen_ex4
+
+# a Rust local whose name is a Lean keyword (`let rec = Reciprocal::new(d);`) gets a trailing underscore
+LEAN_KEYWORDS = {'rec', 'fun', 'do', 'at', 'from', 'have', 'show', 'then', 'end', 'open', 'def', 'theorem', 'by', 'with', 'in',
+                 'instance', 'structure', 'namespace', 'section', 'variable', 'universe', 'example', 'axiom', 'where', 'deriving'}
+_fresh_r4 = Gen.fresh
+
+
+def _gen_fresh4(self, v, env):
+    return _fresh_r4(self, v + '_' if v in LEAN_KEYWORDS else v, env)
+
+
+Gen.fresh = _gen_fresh4
+
+# unit option `usize_param_nat`: a `usize` PARAMETER (`limbs_num: usize`) is a `Nat` (limb counts and indices are `Nat`s)
+_ty_of_r4 = ty_of
+
+
+def ty_of(t, self_ty):
+    if OPTS.get('usize_param_nat') and t.strip() == 'usize':
+        return 'nat'
+    return _ty_of_r4(t, self_ty)
+
+
+# a seventh `while` form: `while i > 0 { ..; i -= 1; }` with a `usize` counter and the decrement as the LAST statement of the
+# body: `<fn>_loop<j> captured.. : Nat → state.. → state` by structural recursion on the counter, round `n + 1` runs the body
+# with `i = n + 1` and recurses with `n` (the fifth form of the seventh group runs it with `i = n`)
+_emit_loop_down_r4, _loop_down_text_r4 = Gen.emit_loop_down, Gen.loop_down_text
+
+
+def _is_dec(st, i):
+    return st[0] == 'assign' and st[1] == i and st[2] == '-=' and st[3][0] == 'lit' and st[3][1] == 1
+
+
+def _emit_loop_down4(self, i, body, env, lines):
+    if len(body) >= 2 and _is_dec(body[-1], i) and not _is_dec(body[0], i):
+        self.down_last = True
+        try:
+            return _emit_loop_down_r4(self, i, [body[-1]] + body[:-1], env, lines)
+        finally:
+            self.down_last = False
+    return _emit_loop_down_r4(self, i, body, env, lines)
+
+
+def _loop_down_text4(self, i, rest, state, styp, captured, env):
+    if not getattr(self, 'down_last', False):
+        return _loop_down_text_r4(self, i, rest, state, styp, captured, env)
+    self.nloop += 1
+    aux = f'{self.fname}_loop{self.nloop}'
+    env2 = {}
+    for v in captured:
+        env2[v] = (self.fresh('self_' if v == 'self' else v, env2), env[v][1])
+    for s, ty in zip(state, styp):
+        env2[s] = (self.fresh(s, env2), ty)
+    nvar = self.fresh('n', env2)
+    env2[i] = (f'({nvar} + 1)', 'nat')           # the decrement is the last statement: in round `n + 1` the body sees `i = n + 1`
+    outer, declared = set(env2), set()
+    pat = ', '.join(env2[s][0] for s in state)
+    tup = f'({pat})' if len(state) > 1 else pat
+    capb = ''.join(f' ({env2[v][0]} : {lean_ty(env2[v][1])})' for v in captured)
+    capa = ''.join(f' {env2[v][0]}' for v in captured)
+    lines2 = []
+    self.run(rest, env2, lines2, declared)
+    if declared & outer:
+        raise Unsupported('loop body shadows an outer variable')
+    if any(env2[s][1] != ty for s, ty in zip(state, styp)) or env2[i] != (f'({nvar} + 1)', 'nat'):
+        raise Unsupported('loop state changes type')
+    res = ' × '.join(lean_ty(t) for t in styp)
+    text = (f'@[gen_defs] def {aux}{capb} : Nat → ' + ' → '.join(lean_ty(t) for t in styp) + f' → {res}\n'
+            + f'  | 0, {pat} => {tup}\n'
+            + f'  | {nvar} + 1, {pat} =>\n    ' + '\n    '.join(lines2)
+            + f'\n    {self.ns}.{aux}{capa} {nvar} ' + ' '.join(env2[s][0] for s in state))
+    return text, aux, capa
+
+
+Gen.emit_loop_down, Gen.loop_down_text = _emit_loop_down4, _loop_down_text4
+
+
 def impl_blocks(src, self_ty):
     """the bodies of all inherent impl blocks `impl[<..>] Ty[<..>] {` of a file, concatenated"""
     out = []
@@ -3256,6 +3418,9 @@ def translate_file(path, ns, self_ty, want=None, private=False, ext=None, cut=No
         src = '\n'.join((impl_blocks(open(f).read(), self_ty) if self_ty else open(f).read()) for f in path)
     else:
         src = open(path).read()
+        if (ext or {}).get('generic_alias'):
+            # the file names its const generic `L` (`fn f<const L: usize>(u: &Uint<L>, ..)`): read as `LIMBS` (unit option `generic_alias`)
+            src = re.sub(r'\b' + ext['generic_alias'] + r'\b', 'LIMBS', src)
         if cut and cut in src:
             src = src[:src.index(cut)]      # only the free functions in front of the first `impl` block (unit option `cut`)
         for mod in (ext or {}).get('skip_mods', []):
@@ -3488,6 +3653,25 @@ FILES = [
                    'bits_vartime', 'leading_zeros', 'leading_zeros_vartime', 'trailing_zeros', 'trailing_zeros_vartime',
                    'trailing_ones', 'trailing_ones_vartime', 'set_bit']),
     ]),
+    # division of a `Uint<L>` by a LIMB (C02): the count-down loops of `div2by1` over the normalised limbs (src/uint/div_limb.rs)
+    # and the thin `impl Uint` wrappers of src/uint/div.rs
+    ('DivLimbLoops.lean', ['CB.Gen.DivLimb', 'CB.Gen.Shifts', None, 'set_option linter.unusedVariables false'], [
+        dict(key='div_limb_loops', rel=DIV_LIMB, ns='CB.Gen.DivLimbLoops', self_ty=None, generic='LIMBS', free_generic=True,
+             generic_alias='L', use=['div_limb', 'prim'], uint_more=['uint_shift'], limb_more=['limb_shift'],
+             desc='the limb loops of division by a limb: div_rem_limb_with_reciprocal, rem_limb_with_reciprocal, rem_limb_with_reciprocal_wide',
+             want=['div_rem_limb_with_reciprocal', 'rem_limb_with_reciprocal', 'rem_limb_with_reciprocal_wide']),
+        dict(key='uint_div_limb', rel=['src/uint/div.rs'], ns='CB.Gen.DivLimbLoops.Uint', self_ty='Uint', generic='LIMBS',
+             use=['div_limb_loops', 'reciprocal'],
+             desc='impl<const LIMBS: usize> Uint<LIMBS>: the thin wrappers div_rem_limb[_with_reciprocal], rem_limb[_with_reciprocal]',
+             want=['div_rem_limb_with_reciprocal', 'div_rem_limb', 'rem_limb_with_reciprocal', 'rem_limb']),
+        dict(key='uint_limb_vartime', rel=['src/uint/div.rs'], ns='CB.Gen.DivLimbLoops.Vartime', self_ty='Uint', generic='LIMBS',
+             private=True, usize_param_nat=True,
+             desc='impl<const LIMBS: usize> Uint<LIMBS>: the private sub-limb shifts of div_rem_vartime over the low `limbs_num` limbs',
+             want=['shl_limb_vartime', 'shr_limb_vartime']),
+        dict(key='mul_rem', rel=DIV_LIMB, ns='CB.Gen.DivLimbLoops.MulRem', self_ty=None, private=True,
+             use=['div_limb_loops', 'reciprocal', 'prim'],
+             desc='mul_rem: the double-width product reduced by rem_limb_with_reciprocal at limb count 2', want=['mul_rem']),
+    ]),
 ]
 
 AUX = re.compile(r'\w+_loop\d+$')
@@ -3581,10 +3765,14 @@ def main():
             OPTS.update({k: u[k] for k in ('generic2', 'nonconst', 'panic_guards') if u.get(k)})
             ext['uint_more'] = [reg[k] for k in u.get('uint_more', []) if k in reg]
             ext.update(int=reg.get('int'))
+            for opt in ('generic_alias',):
+                if u.get(opt):
+                    ext[opt] = u[opt]
             for opt in ('fuel', 'skip_mods', 'defer_lets'):
                 if u.get(opt):
                     ext[opt] = u[opt]
             OPTS.update({k: u[k] for k in ('usize_nat',) if u.get(k)})
+            OPTS.update({k: u[k] for k in ('usize_param_nat',) if u.get(k)})
             try:
                 order, out, failed, sigs = translate_file(path, ns, self_ty, u.get('want'), u.get('private', False), ext, u.get('cut'))
             except (Unsupported, OSError) as ex:
